@@ -75,7 +75,7 @@ def sqlite_can_alter(ops, a, b):
             continue
         if k == "add_column":
             c = find_col(b, o["t"], o["c"])
-            if c and not c.get("pk") and (c["nullable"] or (c.get("default") and c["default"]["kind"] == "str")) and \
+            if c and not c.get("pk") and not (c.get("default") and c["default"]["kind"] == "func") and (c["nullable"] or (c.get("default") and c["default"]["kind"] == "str")) and \
                     not (c.get("default") and c["default"]["kind"] == "expr" and not re.match(r"^('.*'|-?[0-9.]+|NULL|TRUE|FALSE)$", c["default"]["v"])):
                 continue
             return False
